@@ -1,4 +1,4 @@
-import RaptorModel.Model.Cycle
+import RaptorModel.Model.Setup
 namespace Raptor.C08
 theorem placeholder : (1 : Nat) = 1 := rfl
 end Raptor.C08
